@@ -699,3 +699,48 @@ def run(ctx):  # noqa: F811
     r02_8(ctx, ctx.model)
     r02_9(ctx, ctx.model)
     r02_10(ctx, ctx.model)
+
+
+def r02_11(ctx, m):
+    """aliases of rules owned by other properties whose code lives in nifty/cl/operators, plus the regridding broadcast shape"""
+    from .c11 import r11_5
+    from .c03 import r03_45
+    r11_5(ctx, m, rid="R02.11")
+    r03_45(ctx, rid4="R02.12", only4=True)
+    ctx.rule("R02.13", "RegriddingOperator.apply: the 1-d interpolation weights of axis d are broadcast with a shape that has one entry "
+                       "per axis of the WHOLE array, (1,)*d + (-1,) + (1,)*(ndim-d-1) with ndim = number of axes of the target - an "
+                       "axis count that stops at the regridded sub-space puts the weights on the wrong axis when further sub-spaces follow", floor=1)
+    R = m.cls("nifty.cl.operators.regridding_operator", "RegriddingOperator")
+    ap = R.methods["apply"]
+    ctx.saw_func(ap)
+    resh = [c for c in walk_no_nested(ap.node) if isinstance(c, ast.Call) and call_name(c) == "reshape" and c.args and "(-1,)" in src(c.args[0])]
+    key = f"{ap.key}::weights are broadcast over all axes"
+    if not resh:
+        ctx.und("R02.13", key, "reshape of the weights not found", ap)
+        return
+    loc = {src(st.targets[0]): st.value for st in walk_no_nested(ap.node) if isinstance(st, ast.Assign) and isinstance(st.targets[0], ast.Name)}
+    import re as _re
+    for c in resh:
+        t = src(c.args[0]).replace(" ", "")
+        mt = _re.fullmatch(r"\(1,\)\*(\w+)\+\(-1,\)\+\(1,\)\*\((\w+)-(\w+)-1\)", t)
+        if not mt or mt.group(1) != mt.group(3):
+            ctx.und("R02.13", key, f"shape `{src(c.args[0])}` not recognised", ap, c)
+            continue
+        nname = mt.group(2)
+        nd = src(loc[nname]).replace(" ", "") if nname in loc else nname
+        whole = nd in ("len(self.target.shape)", "len(self._target.shape)", "len(self._tgt(mode).shape)", "len(self._dom(mode).shape)", "v.ndim", "len(v.shape)", "x.val.ndim",
+                       "len(curshp)", "len(tgtshp)", "len(self.domain.shape)", "len(self._domain.shape)")
+        if whole:
+            ctx.ok("R02.13", key, f"{nname} = {nd}", ap, c)
+        elif ".axes[" in nd:
+            ctx.bad("R02.13", key, f"{nname} = {nd} counts the axes up to one sub-space only; the array has len(target.shape) axes", ap, c)
+        else:
+            ctx.und("R02.13", key, f"{nname} = {nd} not recognised", ap, c)
+
+
+_run_c02d = run
+
+
+def run(ctx):  # noqa: F811
+    _run_c02d(ctx)
+    r02_11(ctx, ctx.model)
